@@ -5,7 +5,8 @@
 //   run <max>:<ops> sched <t0 t1 …> [pts]   explicit schedule (thread ids chosen at successive scheduling points and
 //                                           notify_one picks; then: keep running the current thread, else the lowest enabled)
 //
-// <max> = setMaxThreadCount(max) (1..3); setExpiryTimeout(-1) always (non-expiring workers).
+// <max> = setMaxThreadCount(max) (0..3; with 0 no worker is ever created: tasks stay queued until clear()/stop() destroys them,
+//         so such a script must not contain `w`); setExpiryTimeout(-1) always (non-expiring workers).
 // <ops> = comma separated owner script, executed by thread 0:
 //   s   pool.start(new TrackedTask(id))                 tracked Runnable subclass
 //   f   pool.start(Functor(id))                         plain callable   -> template start -> TRunnable<Functor>
@@ -140,7 +141,7 @@ int main() {
         int maxThreads = std::atoi(cfg.substr(0, colon).c_str());
         std::vector<std::string> ops;
         { std::string cur; for (char c : cfg.substr(colon + 1)) { if (c == ',') { ops.push_back(cur); cur.clear(); } else cur += c; } ops.push_back(cur); }
-        if (ops.empty() || ops.back() != "x" || maxThreads < 1) { std::puts("bad-op"); std::puts("end ok"); continue; }
+        if (ops.empty() || ops.back() != "x" || maxThreads < 0) { std::puts("bad-op"); std::puts("end ok"); continue; }
         std::vector<int> script; uint64_t seed = 1; bool pts = false;
         std::string tok;
         std::vector<std::string> rest; while (is >> tok) rest.push_back(tok);
